@@ -25,8 +25,18 @@ CLAIMED = {
    tech="TLC enumerates the server-hello matrix; real Session establishment per case; TLC checks establishment, negotiated version, reported id/capabilities and outgoing framing (Wire.tla C12 relations)",
    text="Exhaustive over base-version subsets x session-id shapes x namespace style x exchange order x malformed hellos.",
    note="only the client's outgoing framing is observable over the in-memory transport"),
+ "C06": dict(engine="framing", cat="model_checking",
+   tech="TLC model checking of both receiver shapes (MCFraming.tla: all chunkings, all streams over the body set); TLC-enumerated cut/close cases (FramingGen.tla) executed on the real TLS, child-process and SSH transports; FramingTrace.tla computes Messages(stream) and judges every result",
+   text="Design: exhaustive over chunkings for 1-2 message streams incl. bodies that are proper prefixes of the delimiter. Code: the same case space (cut sets <= 2 at every symbol position, both messages in one unit, hello cuts) run against the three real transports with a peer that controls segmentation.",
+   note="segmentation imposed by 4 ms pauses between peer writes; 2.5 s watchdog per operation, per-case process killed after 12 s"),
+ "C07": dict(engine="framing", cat="fault_enumeration",
+   tech="TLC-enumerated crash points (FramingGen F4/F5: every symbol position of hello and replies x clean / half-close / abrupt) executed on the three real transports; FramingTrace.tla requires an error for every pending and subsequent operation; MCFraming checks EofIsError/NoSpin on the receiver models",
+   text="Every position of the session's life at which the peer can go away, three kinds of going away, three transports, 0-2 requests outstanding; a spin that never yields is caught by running each case in its own process with an external watchdog and CPU-time reading.",
+   note="watchdogs as in C06; after an abrupt close already received data may be lost (allowed)"),
 }
 ENGINES = [
+ {"name": "framing", "path": "tools/check_framing.py", "serves_properties": ["C06", "C07"],
+  "kind_free_text": "TLC (Framing.tla, MCFraming, FramingGen, FramingTrace) + Rust driver with scripted TLS / child-process / SSH peers"},
  {"name": "session", "path": "tools/check_session.py", "serves_properties": ["C05", "C18"],
   "kind_free_text": "TLC (Session.tla, MCSession, MCSessionGen, SessionTrace) + Rust poll-level executor over an in-memory transport"},
  {"name": "wire", "path": "tools/check_wire.py", "serves_properties": ["C08", "C09", "C12"],
